@@ -40,6 +40,11 @@ func opsExec(raw json.RawMessage, hist []string, deep bool) *bfsResult {
 		if r.Skipped {
 			continue
 		}
+		if r.Sig == "" && !w.Poisoned {
+			if sig, what := w.touch(w.M); sig != "" {
+				r.Sig, r.Obs, r.Want = sig, what, "reference encoding"
+			}
+		}
 		if r.Sig != "" {
 			// A failure inside the set-up or a proper prefix was reported when that
 			// prefix was the end of a history; only report the last step (or set-up).
